@@ -6,7 +6,7 @@ import typing as t
 
 from hypothesis import strategies as st
 
-from .. import absval, gens, msgcheck, rfc4511, rfc4515
+from .. import absval, gens, msgcheck, rfc4511, rfc4515, twins
 from ..engine import QUICK, THOROUGH, Ctx, Part, Property, Violation
 from .c13 import _kind_at
 
@@ -20,7 +20,7 @@ def check_sentence(c: t.Dict[str, t.Any], ctx: Ctx) -> t.List[Violation]:
             ctx.event(k)
     if c["decorated"]:
         ctx.event("decorated")
-    ctx.event(f"depth:{min(c['depth'], 13)}")
+    ctx.event(f"depth:{min(c['depth'], 13)}" if c["depth"] < 64 else f"depth:>={64 if c['depth'] < 100 else 100 if c['depth'] < 200 else 200}")
     nt = (stats.get("esc", 0) >= 1 and stats.get("lit-special-adjacent", 0) >= 1) or (c["depth"] >= 3 and c["decorated"]) or stats.get("ext-without-attr", 0) >= 1
     if nt:
         ctx.nontrivial(text)
@@ -30,6 +30,7 @@ def check_sentence(c: t.Dict[str, t.Any], ctx: Ctx) -> t.List[Violation]:
         raise AssertionError(f"harness: derivation {tree!r} and reference parser {ref!r} disagree on {text!r}")
     out: t.List[Violation] = []
     try:
+        twins.poison_parser(sansldap.LDAPFilter.from_string, text)
         f = sansldap.LDAPFilter.from_string(text)
     except Exception as e:
         where = "decorated" if c["decorated"] else "plain"
@@ -64,7 +65,8 @@ class Sentences(Part):
 
     def strategy(self, tier: str) -> t.Any:
         deep = (13, 60) if tier == QUICK else (13, 150)
-        return st.one_of(rfc4515.sentence(max_leaves=6), rfc4515.sentence(max_leaves=6), rfc4515.sentence(max_leaves=2), rfc4515.deep_sentence(deep))
+        return st.one_of(rfc4515.sentence(max_leaves=6), rfc4515.sentence(max_leaves=6), rfc4515.sentence(max_leaves=2), rfc4515.deep_sentence(deep),
+                         rfc4515.very_deep_sentence())
 
     def check(self, case: t.Any, ctx: Ctx) -> t.List[Violation]:
         return check_sentence(case, ctx)
@@ -81,7 +83,8 @@ PROP = Property(
         "Generated: sentences produced by walking the RFC 4515 grammar (all item productions, all six extensible forms, "
         "attribute descriptions with options and numeric OIDs, every value octet chosen between its literal form where "
         "'normal' allows it - incl. raw multi-byte UTF-8, control characters, = : ~ < > ! & | and spaces - and \\hh in "
-        "lower/upper/mixed hex case, empty values, nesting up to 60, thorough: 150), optionally decorated with the spaces the library "
+        "lower/upper/mixed hex case, empty values, nesting up to 60, thorough: 150, plus very deep sentences of depth "
+        "64..300 - about 60 % of what the default interpreter stack allows this parser), optionally decorated with the spaces the library "
         "documents as tolerated (around the filter, after '(', after the operator, between and after sub-filters); the "
         "expected tree comes from the derivation and is cross-checked against the reference parser on every case. "
         "Oracle: from_string(text) projects to that tree and the SearchRequest packed with it reference-decodes to the "
